@@ -3,7 +3,9 @@
 Tie (V): for every generated program the real @script decorator accepts, the real FunctionProto and
 ModelProto are turned into OV.Graph.Syntax literals (harness/graphlit.py) and the verified checkers
 `wf_graphb`, `no_input_returned`, `imports_ok` (coq/Graph/Wf.v; soundness `wf_graphb_sound` in
-coq/Graph/WfProofs.v, exported by Props/C02.v) are evaluated on them inside Coq.  Direct oracle:
+coq/Graph/WfProofs.v, completeness `wf_graphb_complete` in coq/Graph/WfCompleteProofs.v, exported by Props/C02.v and
+Props/C02_complete.v: true <-> the declarative rules hold, so a `false` verdict is a proof that the proto violates
+them) are evaluated on them inside Coq.  Direct oracle:
 onnx.checker (check_model full_check=True / check_function).  Near-miss stream: one grammar-violating
 mutation per program must be refused at decoration time with one of the exception classes the source
 raises on purpose; an accepted near miss is checked like any accepted program.
@@ -11,6 +13,10 @@ raises on purpose; an accepted near miss is checked like any accepted program.
 Subscript stream: programs of the same grammar with tensor subscripts at every nesting position (c01_gen.gen_subscript_program
 + corpus/C01/subscript.json).  Script/Syntax.v has no subscript expression, so for these there is no converter-model theorem:
 the verified checkers are evaluated on the real protos and onnx.checker is run, as for every other accepted program.
+
+Near-miss stream 2 (harness/c02_near.py, session 6): about 110 further construct kinds on accepted base programs.
+Refusal tie (coq/Script/Refuse.v, C02_defective_never_accepted): on model-expressible near misses the class and the
+source line of the statement at the path computed by the verified detector are compared in Coq with the real exception.
 
 Name-resolution near misses (c01_gen.name_near_miss): a variable assigned on only one path (one branch of an if, the body
 of a loop that may run zero times) and used afterwards, whose name also denotes a module-level global / closure variable /
@@ -22,7 +28,7 @@ from __future__ import annotations
 import collections
 import traceback
 
-from harness import c01_gen, c01_run, common, graphlit
+from harness import c01_gen, c01_run, c02_near, common, graphlit
 from harness.common import clist
 
 PROPERTY = "C02"
@@ -51,6 +57,16 @@ def classify_checker_error(txt):
     if "ValidationError" in txt:
         return "validation-error"
     return "other"
+
+
+# what a `false` verdict proves (Props/C02_complete.v): the checkers are complete, not only sound
+REFUTES = {
+    "wf_graphb": "by C02_wf_false_refutes / C02_wf_false_cases the proto violates the declarative rules: a use is not defined before it in "
+                 "this graph or an enclosing one, a subgraph output is not produced inside, outputs repeat, or a value name is defined twice "
+                 "across the graph and its nested subgraphs",
+    "no_input_returned": "by C02_no_input_returned_false some graph input is listed as a graph output",
+    "imports_ok": "by C02_imports_false a domain is imported twice or a node (at some nesting depth) uses a domain that is not imported",
+}
 
 
 def regenerate(ctx):
@@ -200,7 +216,7 @@ def eval_checkers(ctx, coll, stats):
                 if meta["proto"] == "model-local-function":
                     continue   # the same FunctionProto is judged once, as the function under test of its own program
                 ctx.violation(key,
-                              f"verified checker {name} = false on the real {meta['proto']} proto of an accepted program",
+                              f"verified checker {name} = false on the real {meta['proto']} proto of an accepted program: " + REFUTES[name],
                               {k: meta[k] for k in ("stream", "near_miss", "function", "source", "proto")})
     stats["checker_false"] = sum(bad_total.values())
     ctx.obligation(f"verified checkers wf_graphb / no_input_returned / imports_ok evaluated in Coq on {len(items)} real protos", bool(results) or not items)
@@ -373,12 +389,157 @@ def nested_def_probe(ctx, wd, stats):
                       {"source": c01.NESTED_DEF_SRC, "declared_output_elem_type": declared})
 
 
+def near2_stream(ctx, wd, rng, n_bases, coll, stats):
+    import time as _time
+    _t0 = _time.time()
+    """Second near-miss stream (harness/c02_near.py): every mutation kind on `n_bases` base programs the decorator accepts.
+    Refused => exception class the source raises on purpose (anything else is an internal crash); the reported line is
+    compared with the marked line of the mutation (statistics).  Accepted => kinds marked "refuse" are violations (the
+    construct has no ONNX reading / Python raises on some path); the protos of every accepted program must be buildable,
+    pass onnx.checker and the verified checkers."""
+    outcome = collections.Counter()
+    pos = collections.Counter()
+    bases, tries = [], 0
+    while len(bases) < n_bases and tries < 6 * n_bases:
+        prog = c01_gen.gen_program(rng, 7000 + tries, straight=(tries % 3 == 0))
+        tries += 1
+        _m, exc = c01_run.load(wd, f"c02_q{tries}", c01_gen.to_source(prog))
+        if exc is None:
+            bases.append(prog)
+    for bi, prog in enumerate(bases):
+        for kind in c02_near.NEAR_MISS_KINDS2:
+            src = c02_near.mutate2(prog, kind, rng)
+            mod, exc = c01_run.load(wd, f"c02_q{bi}_{kind}".replace("-", "_"), src)
+            ctx.case(("near-miss-2", kind))
+            if bi == 0 and kind in ("break-with-else-clause", "use-before-def-in-for-first-iteration"):
+                ctx.sample({"stream": "near-miss-2", "kind": kind, "source": src})
+            replay = {"stream": "near-miss-2", "near_miss": kind, "source": src}
+            if exc is not None:
+                cls = c01_run.exc_class(exc)
+                stats["near2_refused"] += 1
+                if cls not in c01_run.DESCRIPTIVE:
+                    outcome[f"{kind} -> crash {cls}"] += 1
+                    ctx.violation(f"C02:crash:{cls}@{crash_site(exc)}",
+                                  f"the decorator crashed with an internal {cls} ({str(exc)[:120]!r}) instead of refusing the program with a located message",
+                                  dict(replay, traceback="".join(traceback.format_exception(exc))[-1500:]))
+                    continue
+                outcome[f"{kind} -> {cls}"] += 1
+                has, okpos = c02_near.position_ok(src, prog["name"], exc)
+                pos["names-the-marked-line" if okpos else ("names-another-line" if has else "no-position")] += 1
+                if not okpos:
+                    pos[("other-line: " if has else "no-position: ") + kind] += 1
+                continue
+            stats["near2_accepted"] += 1
+            outcome[f"{kind} -> accepted"] += 1
+            f = getattr(mod, prog["name"], None)
+            problem, detail = None, ""
+            try:
+                fp = f.to_function_proto()
+            except Exception as e:  # noqa: BLE001
+                fp, problem, detail = None, f"to_function_proto-raises:{type(e).__name__}", f"to_function_proto() raised {str(e)[:200]!r}"
+            if fp is not None:
+                err = c01_run.check_function(fp, extra_imports=[("this", 1)])
+                if err is not None:
+                    problem, detail = f"check_function:{classify_checker_error(err)}", f"onnx.checker.check_function rejects the FunctionProto: {err[:300]}"
+                else:
+                    hints = {"wf": "other", "input_returned": "other", "imports": "other"}
+                    coll.add(graphlit.function_lit(fp), graphlit.imports_lit(fp.opset_import),
+                             dict(replay, function=prog["name"], proto="function", nodes=len(fp.node), hints=hints))
+                    # untyped inputs / outputs: the strict checker is required only when they are typed
+                    if not (kind in c02_near.SKIP_MODEL_CHECK or any(a[2] is None for a in prog["aparams"])):
+                        try:
+                            mp = f.to_model_proto()
+                            err = c01_run.check_model(mp)
+                            if err is not None and not ("Field 'shape' of 'type' is required but missing" in err and "[...]" in src):
+                                problem, detail = f"check_model:{classify_checker_error(err)}", f"onnx.checker.check_model(full_check=True) rejects the ModelProto: {err[:300]}"
+                        except Exception as e:  # noqa: BLE001
+                            problem, detail = f"to_model_proto-raises:{type(e).__name__}", f"to_model_proto() raised {str(e)[:200]!r}"
+            if problem is not None or c02_near.EXPECT[kind] == "refuse":
+                ctx.violation(f"C02:near-miss-accepted:{kind}" + (":" + problem if problem else ""),
+                              f"near miss `{kind}` was accepted by the decorator"
+                              + ("; " + detail if problem else " (a construct without ONNX reading, or one Python itself rejects / treats differently)"), replay)
+    stats["near2_seconds"] = int(_time.time() - _t0)
+    ctx.cover(near2_bases=len(bases), near2_kinds=len(c02_near.NEAR_MISS_KINDS2), near2_outcomes=dict(sorted(outcome.items())),
+              near2_reported_position=dict(sorted(pos.items())))
+    ctx.obligation("near-miss stream 2 not degenerate: base programs found and most mutations refused",
+                   len(bases) == n_bases and stats["near2_refused"] > stats["near2_accepted"],
+                   f"bases {len(bases)}, refused {stats['near2_refused']}, accepted {stats['near2_accepted']}")
+
+
+def refusal_tie(ctx, wd, rng, n_bases, stats):
+    """Tie of C02_defective_never_accepted (coq/Script/Refuse.v): on model-expressible near misses (and two valid shapes)
+    the detector's class and the source line of the statement at the detector's path are compared, inside Coq, with the
+    class and line of the exception the real decorator raised (Refuse.refusal_agrees)."""
+    cases, meta = [], []
+    tries, nb = 0, 0
+    dist = collections.Counter()
+    while nb < n_bases and tries < 6 * n_bases:
+        prog = c01_gen.gen_program(rng, 8000 + tries, straight=(tries % 3 == 0))
+        tries += 1
+        _m, exc = c01_run.load(wd, f"c02_t{tries}", c01_gen.to_source(prog))
+        if exc is not None:
+            continue
+        nb += 1
+        for kind in c02_near.MODEL_KINDS:
+            q = c02_near.mutate_model(prog, kind, rng)
+            src = c02_near.to_source2(q)
+            _mod, exc2 = c01_run.load(wd, f"c02_t{tries}_{kind}".replace("-", "_"), src)
+            ctx.case(("refusal-tie", kind))
+            if exc2 is not None and c01_run.exc_class(exc2) not in c01_run.DESCRIPTIVE:
+                ctx.violation(f"C02:crash:{c01_run.exc_class(exc2)}@{crash_site(exc2)}",
+                              f"the decorator crashed with an internal {c01_run.exc_class(exc2)} instead of refusing the program with a located message",
+                              {"stream": "refusal-tie", "near_miss": kind, "source": src})
+                continue
+            try:
+                cases.append(c02_near.rcase_lit(q, src, exc2))
+            except TypeError:
+                continue
+            rc = ("accepted", 0) if exc2 is None else c02_near.real_class(exc2, src, q["name"])
+            dist[f"{kind} -> {rc[0] or 'other-class'}"] += 1
+            meta.append((kind, src, rc, exc2))
+    B = 30
+    bodies = []
+    for lo in range(0, len(cases), B):
+        bodies.append(f"Open Scope string_scope.\nDefinition cases : list rcase := {clist(cases[lo:lo + B])}.\n"
+                      "Eval vm_compute in (map refusal_agrees cases).\n")
+    from harness import c01
+    # other builders share coq/ and may have rebuilt Gen/ScriptTables.vo since the start of a long run: make sure the
+    # compiled detector is consistent with the libraries it is loaded with (a no-op when nothing changed)
+    ctx.build(["Script/Refuse.vo"])
+    res = c01_run.coq_eval_par(ctx, c01.SCRIPT_REQ + ["OV.Script.Translate", "OV.Script.Refuse"], bodies, "c02_refuse")
+    verdicts, ok_eval = [], bool(res) or not cases
+    for ok, vals, raw in res:
+        if not ok or len(vals) != 1:
+            ctx.tie_broken("correspondence", "refusal:model-evaluation", raw[-1500:])
+            ok_eval = False
+            continue
+        verdicts += common.parse_nat_list(vals[0])
+    what = {1: "the detector finds a defect but the real decorator accepted the program",
+            2: "the real decorator refused with a modelled class but the detector finds nothing",
+            3: "refusal class differs", 4: "reported source line differs from the line of the statement at the detector's path"}
+    bad = [(j, v) for j, v in enumerate(verdicts) if v != 0]
+    for j, v in bad[:3]:
+        kind, src, rc, exc2 = meta[j]
+        if v == 1:
+            ctx.violation(f"C02:near-miss-accepted:{kind}:model-refuses",
+                          "the converter model provably refuses this program (C02_defective_never_accepted) but the real decorator accepted it",
+                          {"stream": "refusal-tie", "near_miss": kind, "source": src})
+        else:
+            ctx.tie_broken("correspondence", "refusal:" + kind, f"{what[v]}; real = {rc}; {str(exc2)[:300]}\n{src}")
+    located = sum(1 for m in meta if m[2][0] not in ("", "accepted"))
+    ctx.obligation(f"refusal correspondence (tie of C02_defective_never_accepted): class and source line of the real exception = class and line of the "
+                   f"statement at the path computed by Script/Refuse.v, evaluated in Coq on {len(cases)} model-expressible near misses "
+                   f"({located} refused with a modelled class, {sum(1 for m in meta if m[2][0] == 'accepted')} accepted)",
+                   ok_eval and len(verdicts) == len(cases) and not bad)
+    ctx.cover(refusal_tie_cases=len(cases), refusal_tie_outcomes=dict(sorted(dist.items())), refusal_tie_disagreements=len(bad))
+
+
 def run(ctx):
     ctx.assume("onnx.checker (check_model full_check=True, check_function) is an oracle: its C++ code is outside the model")
     ctx.assume("generated programs are well typed under the ONNX reading (typed grammar); the checker is only run on such programs")
     ctx.trust("harness/graphlit.py: printer from the real protos to OV.Graph.Syntax literals")
     ctx.check_props()
-    ctx.build(["Script/Corr.vo"])        # the model-side tie evaluates Script/Corr.v, which depends on the regenerated Gen/Analysis.v
+    ctx.build(["Script/Corr.vo", "Script/Refuse.vo"])        # the model-side tie evaluates Script/Corr.v, which depends on the regenerated Gen/Analysis.v
     quick = ctx.tier == "quick"
     n_prog = 220 if quick else 3000
     rng = ctx.rng
@@ -444,6 +605,9 @@ def run(ctx):
         sub_rng = _random.Random(rng.getrandbits(64))
         sub_feats = subscript_stream(ctx, wd, sub_rng, 60 if quick else 900, coll, stats)
         name_outcome = name_resolution_stream(ctx, wd, sub_rng, 2 if quick else 12, stats)
+        near_rng = _random.Random(sub_rng.getrandbits(64))      # own generator: the streams above are unchanged
+        near2_stream(ctx, wd, near_rng, 2 if quick else 10, coll, stats)
+        refusal_tie(ctx, wd, near_rng, 3 if quick else 20, stats)
         bad = eval_checkers(ctx, coll, stats)
         model_side_tie(ctx, model_side, stats)
     finally:
